@@ -216,8 +216,3 @@ pub fn verif_identify_edges(
 ) -> Result<(Vec<[u32; 2]>, Vec<[u32; 3]>, Vec<Vec<u32>>)> {
     identify_edges(faces)
 }
-
-#[cfg(feature = "verif")]
-pub fn verif_boundary_loops(boundary_map: HashMap<u32, u32>) -> Vec<Vec<u32>> {
-    boundary_loops(boundary_map)
-}
